@@ -15,6 +15,7 @@ package stree
 //@ ghost field node.desc set[ref]
 //@ ghost field node.cnt int
 //@ ghost field node.rep gmap[int]T
+//@ ghost field node.pw int
 //@ ghost field Tree.vals gmap[int]T
 //@ ghost field Tree.elems set[int]
 //@ role (*Tree).compare ord
@@ -36,6 +37,10 @@ package stree
 //@ pred closed(y *node[T]) := (forall z *node[T] :: {z in y.desc} z in y.desc ==> (forall w ref :: {w in z.desc} w in z.desc ==> w in y.desc) && (forall k int :: {k in z.keys} k in z.keys ==> k in y.keys && z.rep[k] == y.rep[k]))
 //@ pred treeOK(n *node[T], cmp func(T, T) int) := n != nil ==> allocated(n) && n in n.desc
 //@+     && (forall y *node[T] :: {y in n.desc} y in n.desc ==> y != nil && allocated(y) && local(y, cmp) && closed(y))
+// C02, second clause. pw is 2^(height+1) of a subtree, maintained as a plain integer (1 for the empty tree, twice the
+// larger child's otherwise): a tree of n nodes has the minimum possible height floor(log2 n) exactly when pw/2 <= n < pw.
+//@ spec pwOf(n *node[T]) int := ite(n == nil, 1, n.pw)
+//@ pred pwOK(n *node[T]) := n != nil ==> forall y *node[T] :: {y in n.desc} y in n.desc ==> y.pw == 2 * ite(pwOf(y.left) >= pwOf(y.right), pwOf(y.left), pwOf(y.right))
 //@ pred treeInv(t *Tree[T]) := t != nil && treeOK(t.root, t.compare)
 //@+     && (forall k int :: {k in t.elems} k in t.elems <==> inK(t.root, k))
 //@+     && (forall k int :: {t.vals[k]} k in t.elems ==> t.vals[k] == t.root.rep[k])
@@ -423,35 +428,36 @@ package stree
 //@   role compare ord
 //@   ghostret from imap[int]
 //@   panics when β < 0 || β > 1000
-//@   ensures  [C01,C04] inv: result != nil && fresh(result) && treeInv(result) && sizeInv(result) && result.compare == compare
-//@   ensures  [C01,C04] all: forall i int :: {keys[i]} 0 <= i && i < len(keys) ==> rank(compare, keys[i]) in result.elems
-//@   ensures  [C01,C04] only: forall k int :: {k in result.elems} k in result.elems ==> 0 <= from[k] && from[k] < len(keys) && rank(compare, keys[from[k]]) == k && result.vals[k] == keys[from[k]]
-//@   ensures  [C01,C04] input: unchanged(elems(keys))
-//@   ensures  [C01,C04] none: len(keys) == 0 ==> result.root == nil && result.size == 0 && result.max == 0
+//@   ensures  [C01,C02,C04] inv: result != nil && fresh(result) && treeInv(result) && sizeInv(result) && result.compare == compare
+//@   ensures  [C01,C02,C04] all: forall i int :: {keys[i]} 0 <= i && i < len(keys) ==> rank(compare, keys[i]) in result.elems
+//@   ensures  [C01,C02,C04] only: forall k int :: {k in result.elems} k in result.elems ==> 0 <= from[k] && from[k] < len(keys) && rank(compare, keys[from[k]]) == k && result.vals[k] == keys[from[k]]
+//@   ensures  [C01,C02,C04] input: unchanged(elems(keys))
+//@   ensures  [C02] minimal: pwOK(result.root) && (result.root != nil ==> result.size < result.root.pw && result.root.pw <= 2 * result.size)
+//@   ensures  [C01,C02,C04] none: len(keys) == 0 ==> result.root == nil && result.size == 0 && result.max == 0
 //@   call extract#1: cmp = compare
-//@   loop 1: invariant [C01,C04] made: 0 <= it1 && len(nodes) == len(keys) && fresh(nodes) && unchanged(elems(keys)) && tree != nil && fresh(tree) && tree.root == nil && tree.compare == compare && tree.size == 0 && tree.max == 0
-//@   loop 1: invariant [C01,C04] nodes: forall k int :: {nodes[k]} 0 <= k && k < it1 ==> nodes[k] != nil && fresh(nodes[k]) && nodes[k].X == keys[k]
-//@   loop 1: invariant [C01,C04] apart: forall a int, b int :: {nodes[a], nodes[b]} 0 <= a && a < b && b < it1 ==> nodes[a] != nodes[b]
+//@   loop 1: invariant [C01,C02,C04] made: 0 <= it1 && len(nodes) == len(keys) && fresh(nodes) && unchanged(elems(keys)) && tree != nil && fresh(tree) && tree.root == nil && tree.compare == compare && tree.size == 0 && tree.max == 0
+//@   loop 1: invariant [C01,C02,C04] nodes: forall k int :: {nodes[k]} 0 <= k && k < it1 ==> nodes[k] != nil && fresh(nodes[k]) && nodes[k].X == keys[k]
+//@   loop 1: invariant [C01,C02,C04] apart: forall a int, b int :: {nodes[a], nodes[b]} 0 <= a && a < b && b < it1 ==> nodes[a] != nodes[b]
 //@   at before "if len(keys) != 0": ghost tree.elems = emptyset(tree.elems)
 //@   at before "if len(keys) != 0": ghost from = lambda k int :: 0
 //@   at loop 1 exit: ghost n0 = snap(nodes)
 //@   at after "slices.SortFunc(nodes, func(a, b *node[T]) int { return compare(a.X, b.X) })": ghost sp = SortFunc_p
 //@   at after "slices.SortFunc(nodes, func(a, b *node[T]) int { return compare(a.X, b.X) })": ghost sq = SortFunc_q
 //@   at after "slices.SortFunc(nodes, func(a, b *node[T]) int { return compare(a.X, b.X) })": ghost n1 = snap(nodes)
-//@   at after "slices.SortFunc(nodes, func(a, b *node[T]) int { return compare(a.X, b.X) })": assert [C01,C04] forall k int :: {nodes[k]} 0 <= k && k < len(nodes) ==> 0 <= sp[k] && sp[k] < len(nodes) && nodes[k] == n0[addr(nodes, sp[k])] && nodes[k] != nil && fresh(nodes[k]) && nodes[k].X == keys[sp[k]] && sq[sp[k]] == k
-//@   at after "slices.SortFunc(nodes, func(a, b *node[T]) int { return compare(a.X, b.X) })": assert [C01,C04] forall a int, b int :: {nodes[a], nodes[b]} 0 <= a && a < b && b < len(nodes) ==> nodes[a] != nodes[b] && rank(compare, nodes[a].X) <= rank(compare, nodes[b].X)
-//@   at after "slices.SortFunc(nodes, func(a, b *node[T]) int { return compare(a.X, b.X) })": assert [C01,C04] forall i int :: {keys[i]} 0 <= i && i < len(keys) ==> n0[addr(nodes, i)] != nil && n0[addr(nodes, i)].X == keys[i] && 0 <= sq[i] && sq[i] < len(keys) && n1[addr(nodes, sq[i])] == n0[addr(nodes, i)]
+//@   at after "slices.SortFunc(nodes, func(a, b *node[T]) int { return compare(a.X, b.X) })": assert [C01,C02,C04] forall k int :: {nodes[k]} 0 <= k && k < len(nodes) ==> 0 <= sp[k] && sp[k] < len(nodes) && nodes[k] == n0[addr(nodes, sp[k])] && nodes[k] != nil && fresh(nodes[k]) && nodes[k].X == keys[sp[k]] && sq[sp[k]] == k
+//@   at after "slices.SortFunc(nodes, func(a, b *node[T]) int { return compare(a.X, b.X) })": assert [C01,C02,C04] forall a int, b int :: {nodes[a], nodes[b]} 0 <= a && a < b && b < len(nodes) ==> nodes[a] != nodes[b] && rank(compare, nodes[a].X) <= rank(compare, nodes[b].X)
+//@   at after "slices.SortFunc(nodes, func(a, b *node[T]) int { return compare(a.X, b.X) })": assert [C01,C02,C04] forall i int :: {keys[i]} 0 <= i && i < len(keys) ==> n0[addr(nodes, i)] != nil && n0[addr(nodes, i)].X == keys[i] && 0 <= sq[i] && sq[i] < len(keys) && n1[addr(nodes, sq[i])] == n0[addr(nodes, i)]
 //@   at after "tree.max = len(nodes)": ghost cs = CompactFunc_src
 //@   at after "tree.max = len(nodes)": ghost ck = CompactFunc_keep
-//@   at after "tree.max = len(nodes)": assert [C01,C04] forall i int :: {nodes[i]} 0 <= i && i < len(nodes) ==> 0 <= cs[i] && cs[i] < len(keys) && nodes[i] == n1[addr(nodes, cs[i])] && nodes[i] != nil && fresh(nodes[i]) && nodes[i].X == keys[sp[cs[i]]]
-//@   at after "tree.max = len(nodes)": assert [C01,C04] forall a int, b int :: {nodes[a], nodes[b]} 0 <= a && a < b && b < len(nodes) ==> cs[a] < cs[b] && nodes[a] != nodes[b] && rank(compare, nodes[a].X) <= rank(compare, nodes[b].X)
-//@   at after "tree.max = len(nodes)": assert [C01,C04] forall a int, b int :: {nodes[a], nodes[b]} 0 <= a && b == a + 1 && b < len(nodes) ==> rank(compare, nodes[a].X) < rank(compare, nodes[b].X)
-//@   at after "tree.max = len(nodes)": assert [C01,C04] forall a int, b int :: {nodes[a], nodes[b]} 0 <= a && a < b && b < len(nodes) ==> rank(compare, nodes[a].X) < rank(compare, nodes[b].X)
+//@   at after "tree.max = len(nodes)": assert [C01,C02,C04] forall i int :: {nodes[i]} 0 <= i && i < len(nodes) ==> 0 <= cs[i] && cs[i] < len(keys) && nodes[i] == n1[addr(nodes, cs[i])] && nodes[i] != nil && fresh(nodes[i]) && nodes[i].X == keys[sp[cs[i]]]
+//@   at after "tree.max = len(nodes)": assert [C01,C02,C04] forall a int, b int :: {nodes[a], nodes[b]} 0 <= a && a < b && b < len(nodes) ==> cs[a] < cs[b] && nodes[a] != nodes[b] && rank(compare, nodes[a].X) <= rank(compare, nodes[b].X)
+//@   at after "tree.max = len(nodes)": assert [C01,C02,C04] forall a int, b int :: {nodes[a], nodes[b]} 0 <= a && b == a + 1 && b < len(nodes) ==> rank(compare, nodes[a].X) < rank(compare, nodes[b].X)
+//@   at after "tree.max = len(nodes)": assert [C01,C02,C04] forall a int, b int :: {nodes[a], nodes[b]} 0 <= a && a < b && b < len(nodes) ==> rank(compare, nodes[a].X) < rank(compare, nodes[b].X)
 //@   at after "tree.root = extract(nodes)": ghost tree.elems = ite(tree.root == nil, emptyset(tree.elems), tree.root.keys)
 //@   at after "tree.root = extract(nodes)": ghost tree.vals = tree.root.rep
 //@   at after "tree.root = extract(nodes)": ghost from = lambda k int :: sp[cs[extract_ki[k]]]
-//@   at after "tree.max = len(nodes)": assert [C01,C04] forall i int :: {keys[i]} 0 <= i && i < len(keys) ==> 0 <= sq[i] && sq[i] < len(keys) && n1[addr(nodes, sq[i])] != nil && n1[addr(nodes, sq[i])].X == keys[i] && 0 <= ck[sq[i]] && ck[sq[i]] < len(nodes) && rank(compare, nodes[ck[sq[i]]].X) == rank(compare, keys[i])
-//@   at after "tree.root = extract(nodes)": assert [C01,C04] forall i int :: {keys[i]} 0 <= i && i < len(keys) ==> 0 <= sq[i] && sq[i] < len(keys) && 0 <= ck[sq[i]] && ck[sq[i]] < len(nodes) && rank(compare, nodes[ck[sq[i]]].X) == rank(compare, keys[i])
+//@   at after "tree.max = len(nodes)": assert [C01,C02,C04] forall i int :: {keys[i]} 0 <= i && i < len(keys) ==> 0 <= sq[i] && sq[i] < len(keys) && n1[addr(nodes, sq[i])] != nil && n1[addr(nodes, sq[i])].X == keys[i] && 0 <= ck[sq[i]] && ck[sq[i]] < len(nodes) && rank(compare, nodes[ck[sq[i]]].X) == rank(compare, keys[i])
+//@   at after "tree.root = extract(nodes)": assert [C01,C02,C04] forall i int :: {keys[i]} 0 <= i && i < len(keys) ==> 0 <= sq[i] && sq[i] < len(keys) && 0 <= ck[sq[i]] && ck[sq[i]] < len(nodes) && rank(compare, nodes[ck[sq[i]]].X) == rank(compare, keys[i])
 //@
 // extract builds a search tree from a slice of pairwise different nodes sorted by strictly ascending rank (what New
 // passes after sorting and compacting): the ghost fields of every node of the slice are set on the way back up.
@@ -459,43 +465,47 @@ package stree
 //@ func extract
 //@   ghost cmp func(T, T) int
 //@   ghostret ni imap[int], ki imap[int]
-//@   requires [C01] live: forall k int :: {nodes[k]} 0 <= k && k < len(nodes) ==> nodes[k] != nil && allocated(nodes[k])
-//@   requires [C01] apart: forall a int, b int :: {nodes[a], nodes[b]} 0 <= a && a < b && b < len(nodes) ==> nodes[a] != nodes[b]
-//@   requires [C01] sorted: forall a int, b int :: {nodes[a], nodes[b]} 0 <= a && a < b && b < len(nodes) ==> rank(cmp, nodes[a].X) < rank(cmp, nodes[b].X)
-//@   ensures  [C01] nil: (len(nodes) == 0) == (result == nil)
-//@   ensures  [C01] shape: treeOK(result, cmp) && cntOf(result) == len(nodes)
-//@   ensures  [C01] card: result != nil ==> card(result.keys) == len(nodes)
-//@   ensures  [C01] members: forall k int :: {nodes[k]} 0 <= k && k < len(nodes) ==> inD(result, nodes[k]) && inK(result, rank(cmp, nodes[k].X)) && result.rep[rank(cmp, nodes[k].X)] == nodes[k].X
-//@   ensures  [C01] onlyNodes: forall y ref :: {inD(result, y)} inD(result, y) ==> 0 <= ni[y] && ni[y] < len(nodes) && nodes[ni[y]] == y
-//@   ensures  [C01] onlyKeys: forall k int :: {inK(result, k)} inK(result, k) ==> 0 <= ki[k] && ki[k] < len(nodes) && rank(cmp, nodes[ki[k]].X) == k
-//@   ensures  [C01] values: forall y *node[T] :: {y.X} old(allocated(y)) ==> y.X == old(y.X)
-//@   ensures  [C01] frame: forall y *node[T] :: {y.left} {y.right} {y.keys} {y.desc} {y.cnt} {y.rep} old(allocated(y)) && !inD(result, y) ==> sameNode(y)
-//@   ensures  [C01] slice: unchanged(elems(nodes))
-//@   modifies every(nodes[0].left), every(nodes[0].right), every(nodes[0].keys), every(nodes[0].desc), every(nodes[0].cnt), every(nodes[0].rep)
+//@   requires [C01,C02] live: forall k int :: {nodes[k]} 0 <= k && k < len(nodes) ==> nodes[k] != nil && allocated(nodes[k])
+//@   requires [C01,C02] apart: forall a int, b int :: {nodes[a], nodes[b]} 0 <= a && a < b && b < len(nodes) ==> nodes[a] != nodes[b]
+//@   requires [C01,C02] sorted: forall a int, b int :: {nodes[a], nodes[b]} 0 <= a && a < b && b < len(nodes) ==> rank(cmp, nodes[a].X) < rank(cmp, nodes[b].X)
+//@   ensures  [C01,C02] nil: (len(nodes) == 0) == (result == nil)
+//@   ensures  [C01,C02] shape: treeOK(result, cmp) && cntOf(result) == len(nodes)
+//@   ensures  [C01,C02] card: result != nil ==> card(result.keys) == len(nodes)
+//@   ensures  [C02] minimal: pwOK(result) && (result != nil ==> len(nodes) < result.pw && result.pw <= 2 * len(nodes))
+//@   ensures  [C02] pwframe: forall y *node[T] :: {y.pw} old(allocated(y)) && !inD(result, y) ==> y.pw == old(y.pw)
+//@   ensures  [C01,C02] members: forall k int :: {nodes[k]} 0 <= k && k < len(nodes) ==> inD(result, nodes[k]) && inK(result, rank(cmp, nodes[k].X)) && result.rep[rank(cmp, nodes[k].X)] == nodes[k].X
+//@   ensures  [C01,C02] onlyNodes: forall y ref :: {inD(result, y)} inD(result, y) ==> 0 <= ni[y] && ni[y] < len(nodes) && nodes[ni[y]] == y
+//@   ensures  [C01,C02] onlyKeys: forall k int :: {inK(result, k)} inK(result, k) ==> 0 <= ki[k] && ki[k] < len(nodes) && rank(cmp, nodes[ki[k]].X) == k
+//@   ensures  [C01,C02] values: forall y *node[T] :: {y.X} old(allocated(y)) ==> y.X == old(y.X)
+//@   ensures  [C01,C02] frame: forall y *node[T] :: {y.left} {y.right} {y.keys} {y.desc} {y.cnt} {y.rep} old(allocated(y)) && !inD(result, y) ==> sameNode(y)
+//@   ensures  [C01,C02] slice: unchanged(elems(nodes))
+//@   modifies every(nodes[0].left), every(nodes[0].right), every(nodes[0].keys), every(nodes[0].desc), every(nodes[0].cnt), every(nodes[0].rep), every(nodes[0].pw)
 //@   decreases len(nodes)
 //@   call extract#1: cmp = cmp
 //@   call extract#2: cmp = cmp
 //@   at return 1: ghost ni = lambda y int :: 0
 //@   at return 1: ghost ki = lambda k int :: 0
-//@   at after "root := nodes[mid]": assert [C01] forall j int :: {nodes[j]} mid < j && j < len(nodes) ==> nodes[j] == nodes[mid+1:][j - mid - 1]
-//@   at after "root := nodes[mid]": assert [C01] forall k int :: {nodes[mid+1:][k]} 0 <= k && k < len(nodes) - mid - 1 ==> nodes[mid+1:][k] == nodes[mid + 1 + k]
-//@   at after "root := nodes[mid]": assert [C01] forall k int :: {nodes[:mid][k]} {nodes[k]} 0 <= k && k < mid ==> nodes[:mid][k] == nodes[k]
+//@   at after "root := nodes[mid]": assert [C01,C02] forall j int :: {nodes[j]} mid < j && j < len(nodes) ==> nodes[j] == nodes[mid+1:][j - mid - 1]
+//@   at after "root := nodes[mid]": assert [C01,C02] forall k int :: {nodes[mid+1:][k]} 0 <= k && k < len(nodes) - mid - 1 ==> nodes[mid+1:][k] == nodes[mid + 1 + k]
+//@   at after "root := nodes[mid]": assert [C01,C02] forall k int :: {nodes[:mid][k]} {nodes[k]} 0 <= k && k < mid ==> nodes[:mid][k] == nodes[k]
 //@   at after "root.left = extract(nodes[:mid])": ghost niL = extract_ni
 //@   at after "root.left = extract(nodes[:mid])": ghost kiL = extract_ki
-//@   at after "root.left = extract(nodes[:mid])": assert [C01] forall y ref :: {inD(root.left, y)} inD(root.left, y) ==> 0 <= niL[y] && niL[y] < mid && nodes[niL[y]] == y
-//@   at after "root.left = extract(nodes[:mid])": assert [C01] forall k int :: {inK(root.left, k)} inK(root.left, k) ==> 0 <= kiL[k] && kiL[k] < mid && rank(cmp, nodes[kiL[k]].X) == k && k < rank(cmp, root.X)
-//@   at after "root.left = extract(nodes[:mid])": assert [C01] !inD(root.left, root)
+//@   at after "root.left = extract(nodes[:mid])": assert [C01,C02] forall y ref :: {inD(root.left, y)} inD(root.left, y) ==> 0 <= niL[y] && niL[y] < mid && nodes[niL[y]] == y
+//@   at after "root.left = extract(nodes[:mid])": assert [C01,C02] forall k int :: {inK(root.left, k)} inK(root.left, k) ==> 0 <= kiL[k] && kiL[k] < mid && rank(cmp, nodes[kiL[k]].X) == k && k < rank(cmp, root.X)
+//@   at after "root.left = extract(nodes[:mid])": assert [C01,C02] !inD(root.left, root)
 //@   at after "root.right = extract(nodes[mid+1:])": ghost niR = extract_ni
 //@   at after "root.right = extract(nodes[mid+1:])": ghost kiR = extract_ki
-//@   at after "root.right = extract(nodes[mid+1:])": assert [C01] forall y ref :: {inD(root.right, y)} inD(root.right, y) ==> 0 <= niR[y] && mid + 1 + niR[y] < len(nodes) && nodes[mid + 1 + niR[y]] == y
-//@   at after "root.right = extract(nodes[mid+1:])": assert [C01] forall k int :: {inK(root.right, k)} inK(root.right, k) ==> 0 <= kiR[k] && mid + 1 + kiR[k] < len(nodes) && rank(cmp, nodes[mid + 1 + kiR[k]].X) == k && k > rank(cmp, root.X)
-//@   at after "root.right = extract(nodes[mid+1:])": assert [C01] !inD(root.right, root) && (forall y ref :: {inD(root.left, y)} {inD(root.right, y)} !(inD(root.left, y) && inD(root.right, y)))
-//@   at after "root.left = extract(nodes[:mid])": assert [C01] forall y *node[T] :: {inD(root.left, y)} inD(root.left, y) ==> (y.left != nil ==> inD(root.left, y.left)) && (y.right != nil ==> inD(root.left, y.right))
-//@   at after "root.right = extract(nodes[mid+1:])": assert [C01] forall y *node[T] :: {inD(root.left, y)} inD(root.left, y) ==> !inD(root.right, y) && (y.left != nil ==> inD(root.left, y.left) && !inD(root.right, y.left)) && (y.right != nil ==> inD(root.left, y.right) && !inD(root.right, y.right))
-//@   at after "root.right = extract(nodes[mid+1:])": assert [C01] treeOK(root.left, cmp)
+//@   at after "root.right = extract(nodes[mid+1:])": assert [C01,C02] forall y ref :: {inD(root.right, y)} inD(root.right, y) ==> 0 <= niR[y] && mid + 1 + niR[y] < len(nodes) && nodes[mid + 1 + niR[y]] == y
+//@   at after "root.right = extract(nodes[mid+1:])": assert [C01,C02] forall k int :: {inK(root.right, k)} inK(root.right, k) ==> 0 <= kiR[k] && mid + 1 + kiR[k] < len(nodes) && rank(cmp, nodes[mid + 1 + kiR[k]].X) == k && k > rank(cmp, root.X)
+//@   at after "root.right = extract(nodes[mid+1:])": assert [C01,C02] !inD(root.right, root) && (forall y ref :: {inD(root.left, y)} {inD(root.right, y)} !(inD(root.left, y) && inD(root.right, y)))
+//@   at after "root.left = extract(nodes[:mid])": assert [C01,C02] forall y *node[T] :: {inD(root.left, y)} inD(root.left, y) ==> (y.left != nil ==> inD(root.left, y.left)) && (y.right != nil ==> inD(root.left, y.right))
+//@   at after "root.right = extract(nodes[mid+1:])": assert [C01,C02] forall y *node[T] :: {inD(root.left, y)} inD(root.left, y) ==> !inD(root.right, y) && (y.left != nil ==> inD(root.left, y.left) && !inD(root.right, y.left)) && (y.right != nil ==> inD(root.left, y.right) && !inD(root.right, y.right))
+//@   at after "root.right = extract(nodes[mid+1:])": assert [C01,C02] treeOK(root.left, cmp)
 //@   at after "root.right = extract(nodes[mid+1:])": ghost root.keys = lambda k int :: k == rank(cmp, root.X) || inK(root.left, k) || inK(root.right, k)
 //@   at after "root.right = extract(nodes[mid+1:])": ghost root.desc = lambda y int :: y == root || inD(root.left, y) || inD(root.right, y)
 //@   at after "root.right = extract(nodes[mid+1:])": ghost root.cnt = 1 + cntOf(root.left) + cntOf(root.right)
+//@   at after "root.right = extract(nodes[mid+1:])": ghost root.pw = 2 * ite(pwOf(root.left) >= pwOf(root.right), pwOf(root.left), pwOf(root.right))
+//@   at after "root.right = extract(nodes[mid+1:])": assert [C02] pwOK(root.left) && pwOK(root.right)
 //@   at after "root.right = extract(nodes[mid+1:])": apply cardSplit(root.keys, ite(root.left == nil, emptyset(root.keys), root.left.keys), ite(root.right == nil, emptyset(root.keys), root.right.keys), rank(cmp, root.X))
 //@   at after "root.right = extract(nodes[mid+1:])": ghost root.rep = lambda k int :: ite(k == rank(cmp, root.X), root.X, ite(inK(root.left, k), root.left.rep[k], root.right.rep[k]))
 //@   at after "root.right = extract(nodes[mid+1:])": ghost ni = lambda y int :: ite(y == root, mid, ite(inD(root.left, y), niL[y], mid + 1 + niR[y]))
